@@ -34,7 +34,7 @@ use profile::{Raw, RawOp, Tier, KNOBS};
 use std::collections::HashSet;
 use std::sync::{Arc, Mutex, OnceLock};
 
-const PROFILES: [&str; 12] = ["C13", "C04", "C09", "C10", "C14", "C02", "C01", "C05", "C06", "C11", "C15", "C19"];
+const PROFILES: [&str; 19] = ["C13", "C04", "C09", "C10", "C14", "C02", "C01", "C05", "C06", "C11", "C15", "C19", "C03", "C07", "C08", "C12", "C16", "C17", "C18"];
 
 struct State {
     execs: u64,
